@@ -2393,8 +2393,16 @@ static void upipe_h265f_end_annexb(struct upipe *upipe, struct upump **upump_p)
         upipe_h265f_sync_acquired(upipe);
         return;
     }
-    if (upipe_h265f->au_last_nal_offset == -1)
+    if (upipe_h265f->au_last_nal_offset == -1) {
+        if (upipe_h265f->au_size) {
+            /* octets before the first start code of a complete access unit */
+            upipe_warn(upipe, "discarding non-sync data");
+            upipe_h265f_consume_uref_stream(upipe, upipe_h265f->au_size);
+            upipe_h265f_flush_au_attr(upipe);
+            upipe_h265f->au_size = 0;
+        }
         return;
+    }
 
     uint8_t last_nal_type = h265nalst_get_type(upipe_h265f->au_last_nal);
     if (last_nal_type < H265NAL_TYPE_VPS) {
@@ -2610,6 +2618,8 @@ static void upipe_h265f_work_annexb(struct upipe *upipe, struct upump **upump_p)
     upipe_h265f_end_annexb(upipe, upump_p);
     upipe_h265f_output_annexb(upipe, upump_p);
     upipe_h265f->au_last_nal_offset = -1;
+    /* the next access unit is scanned on its own */
+    upipe_h265f->scan_context = UINT32_MAX;
 }
 
 /** @internal @This works on incoming frames in NALU format (supposedly
